@@ -186,10 +186,23 @@ func (g *gen) value(from int, t *TExpr, depth int) *CV {
 		return &CV{Kind: 'i', I: 0}
 	}
 	// a reference to an earlier constant of the very same declared type
-	if g.r.Chance(1, 6) {
+	if g.r.Chance(1, 3) {
 		var same []*Def
 		for _, c := range g.consts {
-			if c.Ty.Text() == t.Text() && c.Ty.Kind == t.Kind && (t.Kind != "ref" || c.Ty.Target == t.Target) {
+			crt := rootExpr(c.Ty)
+			if crt == nil || crt.Kind != rt.Kind {
+				continue
+			}
+			switch rt.Kind {
+			case "ref":
+				if crt.Target == rt.Target {
+					same = append(same, c)
+				}
+			case "list", "set", "map":
+				if crt.Text() == rt.Text() && c.Ty.Text() == t.Text() {
+					same = append(same, c)
+				}
+			default: // same scalar kind, possibly reached through different typedefs
 				same = append(same, c)
 			}
 		}
@@ -351,7 +364,10 @@ func (g *gen) build() *Prog {
 		g.ensureInclude(r.Intn(i), i)
 	}
 	for k := r.Intn(3); k > 0; k-- {
-		g.ensureInclude(r.Intn(nFiles), r.Intn(nFiles))
+		a, b := r.Intn(nFiles), r.Intn(nFiles)
+		if a != b || r.Chance(1, 6) {
+			g.ensureInclude(a, b)
+		}
 	}
 
 	nTypes := 1 + r.Intn(g.cfg.maxTypes)
